@@ -466,7 +466,7 @@ func Run(c *fw.Ctx) {
 	c.Assume("the Go runtime reports every panic and fatal error of the process under test (recover / exit status + stderr)")
 	c.Assume("runtime.MemStats.TotalAlloc delta around a call in a child that runs nothing else bounds the bytes the call allocated")
 	c.Assume("executing arbitrary SQL is outside the deciding set (parsing only)")
-	c.Assume("the PostgreSQL wire front-end is driven at the level of the fmessages.Parse* functions with every payload the message reader can hand them (0..MaxMsgSize bytes after the type byte and length); a whole pgsql session over net.Pipe is not driven (the session type is unexported and needs a listening immudb gRPC server behind it)")
+	c.Assume("the PostgreSQL wire front-end is driven at the level of the fmessages.Parse* functions with every payload the message reader can hand them (0..MaxMsgSize bytes after the type byte and length); whole pgsql sessions are driven by the group 'pgsession' against a real server in a child process (start-up, password, simple and extended protocol, COPY sub-protocol; valid and altered frames)")
 
 	root := c.Dir("corpus")
 	co, err := buildCorpora(c.Seed, root)
@@ -505,6 +505,9 @@ func Run(c *fw.Ctx) {
 	}
 	if only == "" || only == "files" {
 		timed("files", func() { runFiles(c, co, setup.Bytes(), &confirm) })
+	}
+	if only == "" || only == "pgsession" {
+		timed("pgsession", func() { runPgSessions(c) })
 	}
 	timed("confirm", func() { runConfirm(c, setup.Bytes(), confirm) })
 }
